@@ -164,9 +164,20 @@ class NetRun:
         return out
 
 
+def wired(R):
+    """what Arc.__init__ establishes and NetLaws.wf states: every arc a node lists as outgoing starts at it, every arc it
+    lists as incoming ends at it (and every arc is listed by both of its ends)"""
+    ok = True
+    for n in R.nodes:
+        ok &= all(a.in_port is n for a in n.out_arcs.values()) and all(a.out_port is n for a in n.in_arcs.values())
+    for a in R.arcs:
+        ok &= a in a.in_port.out_arcs.values() and a in a.out_port.in_arcs.values()
+    return ok
+
+
 def run_net_impl(c):
     R = NetRun(c)
-    out = []
+    out = [1 if wired(R) else 0]
     for op in c["ops"]:
         try:
             r = R.do(op)
@@ -219,7 +230,7 @@ def net_expr(c):
             ops.append(f"NPullCheck {op[1]}%nat {K.lit_opt_q(op[2])}")
         else:
             ops.append("NEnd")
-    return (f"run_net {na} {nn} {int(constants.MAXITER)} {FUEL} (mkNet [{'; '.join(nodes)}] [{'; '.join(arcs)}]) [{'; '.join(ops)}]")
+    return (f"run_net_checked {na} {nn} {int(constants.MAXITER)} {FUEL} (mkNet [{'; '.join(nodes)}] [{'; '.join(arcs)}]) [{'; '.join(ops)}]")
 
 
 K.FAMILIES["net"] = (gen_net_case, run_net_impl, net_expr)
